@@ -107,8 +107,9 @@ PROPS = {
              assumptions=["the hand-written Coq model (Model/Traverse.v) corresponds to src/traverse.rs and src/symbol.rs: checked on every run, not proved",
                           "FnMut visitor closures modelled as state-passing functions"]),
     "C16": P(["Model/Traverse.v", "Spec/Nodes.v", "Proofs/Traverse.v", "Properties/C16.v"], [],
-             lambda rng, tier: gens.gen_projects(rng, tier, 250, 4000),
-             "hand-picked + random projects in all layouts (multi-line, CRLF, multi-byte text and Unicode whitespace before names); "
+             lambda rng, tier: gens.gen_C16(rng, tier),
+             "hand-picked + random projects in all layouts (multi-line, CRLF, multi-byte text and Unicode whitespace before names) and three "
+             "documents with lines longer than 2^16 columns (sparse positions + every position inside a name); "
              "for each file with a tree, find_symbol_at_line_col at every character position (plus one past each line end, a line "
              "past the end and (0,0)) x the three levels",
              runs=[("lookup", "L", ["corr_C16", "spec_C16"])],
